@@ -1,4 +1,5 @@
 import JsightVerif.Model.Project
+import JsightVerif.Proofs.ScanBan
 /-
   C09 — INCLUDE is transparent.  Core of the argument on the L1 model (`Core.processInclude`,
   `Core.run`: hand model of core/include.go + scan_project.go, tied by the `proj` op on split
@@ -28,5 +29,15 @@ theorem eof_of_included_file_ok (c : Core) (hs : c.suspended ≠ []) (hc : c.cur
   simp only [hc]
   have : c.suspended.isEmpty = false := by cases h : c.suspended <;> simp_all
   simp [this]
+
+/-- **C09 (every project)**: INCLUDE leaves no node of its own — whatever the files, the include graph
+    and the fuel, no directive of the forest the scanning stage produces has the kind INCLUDE: an
+    INCLUDE line contributes exactly the directives of the included file (attached where the line
+    stands, by `processInclude_preserves`) and nothing else. -/
+theorem C09_no_include_node (fsys : FileSys) (n : Nat) (rootName : Bytes) (content : Array UInt8)
+    (lenAt : BodyKind → Nat → LenAnswer) (banned : List Kind) (c' : Core)
+    (h : Core.run fsys n { current := { name := rootName, env := mkEnv content lenAt, sc := Sc.init .stateRoot }, banned := banned } = .ok c') :
+    Tree.allList notInclude c'.ctx.forest = true :=
+  scan_forest_no_include fsys n rootName (mkEnv content lenAt) banned c' h
 
 end JsightVerif.Props.C09
